@@ -13,6 +13,7 @@ import (
 
 	"github.com/pilosa/pilosa"
 	"github.com/pilosa/pilosa/test"
+	"pgregory.net/rapid"
 )
 
 var vgtQuanta = []pilosa.TimeQuantum{"Y", "YM", "YMD", "YMDH", "M", "MD", "MDH", "D", "DH", "H"}
@@ -201,6 +202,26 @@ func (s *vgtServer) importIDs(t vgtFataler, index, field string, rows, cols []ui
 			t.Fatalf("API.Import(%s/%s shard %d, %d bits, clear=%v): %v", index, field, sh, len(g.rows), clear, err)
 		}
 	}
+}
+
+// vgtGenStamp draws a timestamp (whole minutes) in 2019..2021 (+-2 units around earlier stamps), biased to calendar edges, optionally near an anchor.
+func vgtGenStamp(t *rapid.T, label string, anchors []time.Time) time.Time {
+	if len(anchors) > 0 && rapid.IntRange(0, 2).Draw(t, label+".near") > 0 {
+		a := anchors[rapid.IntRange(0, len(anchors)-1).Draw(t, label+".anchor")]
+		u := rapid.SampledFrom([]rune{'H', 'H', 'D', 'D', 'M', 'Y'}).Draw(t, label+".du")
+		k := rapid.IntRange(-2, 2).Draw(t, label+".dk")
+		return vgtAdd(vgtTrunc(a, 'H'), u, k)
+	}
+	y := rapid.IntRange(2019, 2021).Draw(t, label+".y")
+	m := rapid.SampledFrom([]int{1, 2, 2, 3, 6, 11, 12, 12}).Draw(t, label+".m")
+	dim := vgtDate(y, time.Month(m)+1, 0, 0).Day()
+	d := rapid.SampledFrom([]int{1, 2, 15, 28, dim - 1, dim}).Draw(t, label+".d")
+	if d > dim {
+		d = dim
+	}
+	h := rapid.SampledFrom([]int{0, 1, 5, 11, 12, 13, 17, 22, 23}).Draw(t, label+".h")
+	min := rapid.SampledFrom([]int{0, 0, 0, 1, 30, 59}).Draw(t, label+".min")
+	return time.Date(y, time.Month(m), d, h, min, 0, 0, time.UTC)
 }
 
 var _ = testing.Verbose
